@@ -10,13 +10,94 @@ from . import tracecheck
 from .limbs import num
 
 
+def spec_laws(out, insts, budget):
+    """MC_OptimumLaws: the laws on Optimum.tla itself, by exhaustive search (one TLC run per base instance, in parallel);
+    returns {(instance id, what): (optimum of the base, optimum of the perturbed member)}"""
+    from concurrent.futures import ThreadPoolExecutor
+    from .mono_solve import perturbations
+
+    def on_grid(i):
+        # Optimum.tla works on integers and people draw g units per unit eaten: every quantity must be a multiple of g
+        g = 2 if i["waste"] == 50 else 1
+        q = [i["sf"]] + i["crops"] + i["meat"] + i["scp"] + i["feed"]
+        return i["waste"] in (0, 50) and all(abs(x - round(x)) < 1e-9 and int(round(x)) % g == 0 for x in q)
+
+    def shard(i):
+        probes, pairs, names = [], [], []
+        nid = [0]
+
+        def member(j):
+            nid[0] += 1
+            g = 2 if j["waste"] == 50 else 1
+            top = (int(j["sf"]) + int(sum(j["crops"])) + int(sum(j["meat"])) + int(sum(j["scp"]))) // g // j["n"] + 2
+            for t in range(1, top + 1):
+                probes.append(dict(id=nid[0], mode="probe", n=j["n"], g=g, sf=int(j["sf"]), crops=[int(x) for x in j["crops"]],
+                                   meat=[int(x) for x in j["meat"]], scp=[int(x) for x in j["scp"]], feed=[int(x) for x in j["feed"]],
+                                   store=j["store"], target=t))
+            return nid[0]
+
+        base = member(i)
+        for kind, what, j in perturbations(i):
+            if not on_grid(j) or kind == "scale":
+                continue  # (the grid has no absolute constant: the scale law is checked on the code only)
+            m = member(j)
+            if what == "x0.5":
+                pairs.append(dict(lo=m, hi=base, kind="x2"))
+                names.append((what, True))
+            else:
+                pairs.append(dict(lo=base, hi=m, kind={"more_supply": "ge", "less_waste": "ge", "more_charge": "le", "scale": "x2"}[kind]))
+                names.append((what, False))
+        wd = C.workdir()
+        pf, qf = os.path.join(wd, "law_probes_%d.json" % i["id"]), os.path.join(wd, "law_pairs_%d.json" % i["id"])
+        json.dump(probes, open(pf, "w"))
+        json.dump(pairs, open(qf, "w"))
+        r = C.run_tlc("MC_OptimumLaws", cfg="MC_OptimumLaws.cfg", workers=1, env={"INST_FILE": pf, "PAIR_FILE": qf}, timeout=budget, heap="2g")
+        return i, r, names, len(probes)
+
+    res = {}
+    npairs = nprobes = 0
+    with ThreadPoolExecutor(C.NCPU) as ex:
+        shards = list(ex.map(shard, [i for i in insts if on_grid(i)]))
+    for i, r, names, np_ in shards:
+        if r.error and "timeout" in r.error:
+            # a member family whose search does not finish within the tier's budget is left out (recorded, not judged)
+            out.extra["spec_law_instances_over_budget"] = out.extra.get("spec_law_instances_over_budget", 0) + 1
+            out.tlc_runs.append(dict(name="MC_OptimumLaws:%d (over budget, left out)" % i["id"], **r.summary()))
+            continue
+        out.add_tlc("MC_OptimumLaws:%d" % i["id"], r)
+        rep = None
+        for line in r.out.splitlines():
+            if line.startswith('"{') and "Laws" in line:
+                rep = json.loads(json.loads(line))
+        if rep is None:
+            out.machinery.append("MC_OptimumLaws produced no report for instance %d: %s" % (i["id"], r.error or r.out[-800:]))
+            continue
+        if not rep["complete"]:
+            out.machinery.append("MC_OptimumLaws: probed target range too narrow for instance %d" % i["id"])
+        bad = rep["bad"] if isinstance(rep["bad"], list) else list(rep["bad"].values())
+        for b in bad:
+            out.violation("spec:OptimumLaw:%s" % b["kind"], "Optimum.tla itself violates the law %s on instance %d (members %s, %s)"
+                          % (b["kind"], i["id"], b["lo"], b["hi"]), dict(instance=i, pair=b))
+        npairs += rep["npairs"]
+        nprobes += np_
+        for k, (what, swapped) in enumerate(names):
+            lo, hi = rep["opt"][k]
+            res[(i["id"], what)] = (hi, lo) if swapped else (lo, hi)
+    out.extra["spec_law_pairs"] = npairs
+    out.extra["spec_law_probes"] = nprobes
+    return res
+
+
 def run(pid, tier):
     out = C.Outcome(pid, tier)
-    out.rule = ("pairs (instance, perturbed instance) solved by the real Optimizer: every single-supply increase, waste decrease, charge increase "
+    out.rule = ("MC_OptimumLaws: the laws decided on Optimum.tla itself by exhaustive search over a family of small instances and their "
+                "perturbations (and the code's optimum of every member compared with the specification's); "
+                "pairs (instance, perturbed instance) solved by the real Optimizer: every single-supply increase, waste decrease, charge increase "
                 "and common scale factor on the small instance family of C02, and sampled single-entry perturbations of the first-round "
                 "inputs of real (country, preset) pairs; each pair is one event validated by Mono.tla; distinct = distinct pairs")
     insts = optimum.gen_instances(tier, C.seed())[: (24 if tier == "quick" else 200)]
     jobs = [dict(kind="small", inst=i) for i in insts]
+    spec_opt = spec_laws(out, insts[: (12 if tier == "quick" else 60)], 60 if tier == "quick" else 1800)
     P = presets.all_presets()
     real = [("ARG", "net_baseline"), ("DJI", "net_nuclear_winter"), ("USA", "ms_worst"), ("EST", "net_nuclear_resilient"), ("IND", "ms_example_res"),
             ("WOR", "net_nuclear_winter"), ("WOR", "net_nuclear_resilient"), ("NZL", "ms_simple_ration"), ("JPN", "net_nuclear_resilient_more_area")]
@@ -55,6 +136,15 @@ def run(pid, tier):
             ev = []
             for pr in rec["pairs"]:
                 npairs += 1
+                so = spec_opt.get((rec["job"]["inst"]["id"], pr["what"])) if rec["job"]["kind"] == "small" else None
+                if so is not None and pr["z1"] is not None:
+                    # the code's optimum of the perturbed member against the specification's (grid units; floor for off-grid optima)
+                    need1 = rec["job"]["inst"]["need"] * (2.0 if pr["what"] == "x2" else 0.5 if pr["what"] == "x0.5" else 1.0)
+                    for zc, zs, nd, which in ((pr["z0"], so[0], rec["job"]["inst"]["need"], "base"), (pr["z1"], so[1], need1, pr["what"])):
+                        units = zc * nd / 100.0
+                        if not (zs - 1e-3 * max(1.0, zs) <= units < zs + 1 + 1e-6):
+                            out.violation("CodeOptimumIsSpecOptimum:small", "small instance %d (%s): the Optimizer reports %.4f units, Optimum.tla's exhaustive "
+                                          "optimum is %d" % (rec["job"]["inst"]["id"], which, units, zs), dict(job=rec["job"], pair=pr, spec=so))
                 ev.append(dict(ev="Pair", kind=pr["kind"], what=pr["what"], solved=pr["z1"] is not None, z0=num(pr["z0"]),
                                z1=num(pr["z1"] if pr["z1"] is not None else 0.0)))
             if ev:
